@@ -194,6 +194,24 @@ theorem scale_nonneg (l u n : Int) (hl : 0 ≤ l) (hu : 0 ≤ u) (hn : 0 ≤ n) 
 example : scaleCounts 2 2 3 = (2, 1) := by decide
 example : scaleCounts 7 5 10 = (6, 4) := by decide
 
+/-- **… and they are the PROPORTIONALLY rescaled counts**: each is a nearest integer of its share
+    `l·n/(l+u)` resp. `u·n/(l+u)` (`2·|(l+u)·l' − l·n| ≤ l+u`, and the same for the upper count) — the clause the
+    harness demands of the realised counts (`rescaled_ok`).  A rule that sums to `n` without being proportional
+    ("the lower bound keeps its count, the upper bound gets the remainder") is excluded: see the `example` below. -/
+theorem scale_proportional (l u n : Int) (h : 0 < l + u) :
+    (2 * (l * n) - (l + u) ≤ 2 * (l + u) * (scaleCounts l u n).1 ∧
+      2 * (l + u) * (scaleCounts l u n).1 ≤ 2 * (l * n) + (l + u)) ∧
+    (2 * (u * n) - (l + u) ≤ 2 * (l + u) * (scaleCounts l u n).2 ∧
+      2 * (l + u) * (scaleCounts l u n).2 ≤ 2 * (u * n) + (l + u)) := by
+  have c := rhe_close (l * n) (l + u) h
+  unfold scaleCounts
+  simp only []
+  refine ⟨⟨c.1, c.2⟩, ?_, ?_⟩ <;> nlinarith [c.1, c.2]
+
+-- hypotheses satisfiable, conclusion discriminating: (l, u, n) = (60, 72, 120) ↦ (55, 65); the non-proportional
+-- "(l, n − l)" = (60, 60) violates the bound (2·|132·60 − 60·120| = 1440 > 132)
+example : scaleCounts 60 72 120 = (55, 65) ∧ ¬ (2 * ((60 + 72) * 60 : Int) ≤ 2 * (60 * 120) + (60 + 72)) := by decide
+
 /-- **F4 (the code before the repair)**: the upper count was divided by a sum that already contained the
     rescaled lower count; `(l, u, n) = (2, 2, 3)` was mapped to `(2, 2)`, which does not sum to `3`
     (concrete witness, by evaluation). -/
